@@ -168,21 +168,36 @@ static ssize_t vsrc_read(void *drv, void *p, size_t n)
 }
 
 struct vp_in {
-    uint8_t ep;
-    uint8_t kind;
-    uint64_t n;
-    uint64_t bsize, bused, boff;
-    uint8_t nchunks, active;
-    uint64_t csize[NCH], cused[NCH], coff[NCH];
-    uint64_t cap;
+    uint8_t kind;                 /* used when the instance leaves the kind open */
+    uint64_t n;                   /* memory length / argument of the _n variants / framed length L */
+    uint64_t bsize, bused, boff;  /* (virtual) ByteBuffer state */
+    uint64_t csize[NCH], cused[NCH], coff[NCH]; /* (virtual) chunk list */
+    uint64_t cap;                 /* decoders: capacity of the destination memory */
 };
 VP_DECLARE_INPUT();
 
-enum {
-    EP_MEMORY_ENCODE, EP_BUFFER_ENCODE, EP_BUFFER_ENCODE_N, EP_CHUNKS_USE,
-    EP_MEMORY_TO_SINK, EP_BUFFER_TO_SINK, EP_BUFFER_TO_SINK_N, EP_CHUNKS_TO_SINK,
-    EP_MEMORY_FROM_SOURCE, EP_BUFFER_FROM_SOURCE, EP_COUNT
-};
+/* entry points (macros: the witnesses of the other entry points must not be
+ * compiled into an instance, an unreachable witness makes it inconclusive) */
+#define EP_MEMORY_ENCODE 0
+#define EP_BUFFER_ENCODE 1
+#define EP_BUFFER_ENCODE_N 2
+#define EP_CHUNKS_USE 3
+#define EP_MEMORY_TO_SINK 4
+#define EP_BUFFER_TO_SINK 5
+#define EP_BUFFER_TO_SINK_N 6
+#define EP_CHUNKS_TO_SINK 7
+#define EP_MEMORY_FROM_SOURCE 8
+#define EP_BUFFER_FROM_SOURCE 9
+#ifndef EP
+#error "EP (entry point) is a compile-time parameter of the instance"
+#endif
+/* shape of the chunk list: compile-time (symbolic shapes are c13_enc.c's job) */
+#ifndef NCHUNKS
+#define NCHUNKS 3
+#endif
+#ifndef ACTIVE
+#define ACTIVE 0
+#endif
 
 static uint64_t kmax;
 static unsigned kindv;
@@ -204,6 +219,7 @@ static void check_prefix_buffer(const ByteBuffer *pb, uint64_t total)
 /* before the call: tell the sink what the property says must arrive */
 static void expect_sink(uint64_t total, unsigned nexp, const struct seg *exp)
 {
+    memset(&rec, 0, sizeof rec);
     rec.exp_nlit = c13_ref_prefix(kindv, total, rec.exp_lit);
     rec.exp_nseg = nexp;
     for (unsigned i = 0; i < MAXSEG; ++i)
@@ -234,52 +250,35 @@ static void check_sink(ssize_t rc, uint64_t total)
     VP_ASSERT(rec.litpos == plen && rec.cur == rec.exp_nseg, "C13.sink.emits-everything");
 }
 
-void harness(void)
+/* One kind. `kk` is a concrete loop counter of harness(), so everything that
+ * depends on the kind is constant-folded by symbolic execution. No VP_ASSUME in
+ * here: an assumption made for one kind would restrict the inputs of the kinds
+ * that follow. */
+static void run_kind(const unsigned kk, const struct vp_in *inp)
 {
-    VP_INPUT(in);
-    VP_ASSUME(in.kind < C13_NKINDS);
-    VP_ASSUME(in.ep < EP_COUNT);
-#ifdef EP
-    /* compile-time entry point: lets symbolic execution drop the other cases */
+    const struct vp_in in = *inp;
+    kindv = kk;
+    kmax = c13_kind_max(kk);
+    const LengthPrefixKind k = (LengthPrefixKind)kk;
     const unsigned ep = EP;
-#else
-    const unsigned ep = in.ep;
-#endif
-#ifdef KIND
-    VP_ASSUME(in.kind == KIND);
-#endif
-    kindv = in.kind;
-    kmax = c13_kind_max(kindv);
-    const LengthPrefixKind k = (LengthPrefixKind)in.kind;
 
     Sink sink;
     chunk_sink_init(&sink, rec_sink, NULL);
 
-    /* virtual buffer */
-    VP_ASSUME(in.boff <= in.bused && in.bused <= in.bsize && in.boff <= VOFF);
     ByteBuffer b = { .data = REG_BASE(REG_BUF), .size = in.bsize, .used = in.bused,
                      .offset = in.boff };
     const uint64_t brest = in.bused - in.boff;
 
-    /* virtual chunk list */
     ByteBuffer ch[NCH];
-    VP_ASSUME(in.nchunks <= NCH && in.active <= in.nchunks);
     uint64_t ctotal = 0;
     struct seg cexp[MAXSEG];
     unsigned ncexp = 0;
     for (unsigned i = 0; i < NCH; ++i) {
-        VP_ASSUME(in.coff[i] <= in.cused[i] && in.cused[i] <= in.csize[i] && in.coff[i] <= VOFF);
-        VP_ASSUME(in.cused[i] - in.coff[i] <= ((uint64_t)1 << 62)); /* the sum cannot wrap */
-#ifdef SMALLX
-        VP_ASSUME(in.csize[i] <= 4096);
-#endif
-        if (i < in.active)
-            VP_ASSUME(in.cused[i] == in.coff[i]); /* chunks before `active` are consumed */
         ch[i].data = REG_BASE(REG_C0 + i);
         ch[i].size = in.csize[i];
         ch[i].used = in.cused[i];
         ch[i].offset = in.coff[i];
-        if (i >= in.active && i < in.nchunks) {
+        if (i >= ACTIVE && i < NCHUNKS) {
             const uint64_t r = in.cused[i] - in.coff[i];
             ctotal += r;
             if (r > 0) {
@@ -291,17 +290,18 @@ void harness(void)
         }
     }
 
-    switch (ep) {
-    case EP_MEMORY_ENCODE: {
+    {
+#if EP == EP_MEMORY_ENCODE
+    {
         LengthPrefixBuffer lpb;
         const int rc = flenp_memory_encode(k, &lpb, REG_BASE(REG_MEM), in.n);
         if (in.n == 0)
-            break;
+            return;
         if (in.n > kmax) {
             VP_ASSERT(rc < 0, "C13.memory-encode.refuses-beyond-maximum");
-            VP_WITNESS(in.n == kmax + 1 && kindv == LENP_VARIABLE, "C13.memory-encode.varint-max-plus-1.reach");
-            VP_WITNESS(in.n == kmax + 1 && kindv == LENP_BE_16BIT, "C13.memory-encode.be16-max-plus-1.reach");
-            break;
+            VP_WITNESS(in.n == kmax + 1 && kk == LENP_VARIABLE, "C13.memory-encode.varint-max-plus-1.reach");
+            VP_WITNESS(in.n == kmax + 1 && kk == LENP_BE_16BIT, "C13.memory-encode.be16-max-plus-1.reach");
+            return;
         }
         VP_ASSERT(rc >= 0, "C13.memory-encode.accepts");
         check_prefix_buffer(&lpb.prefix, in.n);
@@ -309,29 +309,25 @@ void harness(void)
                   lpb.payload.data + lpb.payload.offset == REG_BASE(REG_MEM) &&
                   lpb.payload.used - lpb.payload.offset == in.n,
                   "C13.memory-encode.payload-designates-memory");
-        VP_WITNESS(in.n == kmax && kindv == LENP_VARIABLE, "C13.memory-encode.varint-max.reach");
-        VP_WITNESS(in.n == kmax && kindv == LENP_LE_32BIT, "C13.memory-encode.le32-max.reach");
-        VP_WITNESS(in.n == 1100 && kindv == LENP_BE_16BIT, "C13.memory-encode.be16-1100.reach");
-        break;
+        VP_WITNESS(in.n == kmax && kk == LENP_VARIABLE, "C13.memory-encode.varint-max.reach");
+        VP_WITNESS(in.n == kmax && kk == LENP_LE_32BIT, "C13.memory-encode.le32-max.reach");
+        VP_WITNESS(in.n == 1100 && kk == LENP_BE_16BIT, "C13.memory-encode.be16-1100.reach");
     }
-    case EP_BUFFER_ENCODE:
-    case EP_BUFFER_ENCODE_N: {
+#elif EP == EP_BUFFER_ENCODE || EP == EP_BUFFER_ENCODE_N
+    {
         LengthPrefixBuffer lpb;
         const bool isn = (ep == EP_BUFFER_ENCODE_N);
-        if (isn)
-            VP_ASSUME(in.n <= brest); /* "its first n unread octets" */
         const uint64_t total = isn ? in.n : brest;
         const int rc = isn ? flenp_buffer_encode_n(k, &lpb, &b, in.n)
                            : flenp_buffer_encode(k, &lpb, &b);
         VP_ASSERT(b.data == REG_BASE(REG_BUF) && b.size == in.bsize && b.used == in.bused,
                   "C13.buffer-encode.source-buffer-frame");
         if (total == 0)
-            break;
+            return;
         if (total > kmax) {
             VP_ASSERT(rc < 0, "C13.buffer-encode.refuses-beyond-maximum");
-            VP_WITNESS(total == kmax + 1 && isn, "C13.buffer-encode-n.max-plus-1.reach");
-            VP_WITNESS(total == kmax + 1 && !isn, "C13.buffer-encode.max-plus-1.reach");
-            break;
+            VP_WITNESS(total == kmax + 1 && kk == LENP_OCTET, "C13.buffer-encode.octet-max-plus-1.reach");
+            return;
         }
         VP_ASSERT(rc >= 0, "C13.buffer-encode.accepts");
         check_prefix_buffer(&lpb.prefix, total);
@@ -341,50 +337,55 @@ void harness(void)
                   "C13.buffer-encode.payload-designates-unread-octets");
         if (isn)
             VP_ASSERT(b.offset == in.boff + in.n, "C13.buffer-encode-n.advances-by-n");
-        VP_WITNESS(isn && total == kmax && brest > in.n && in.boff > 0, "C13.buffer-encode-n.max.reach");
-        VP_WITNESS(!isn && total == kmax && in.boff > 0 && in.bused < in.bsize, "C13.buffer-encode.max.reach");
-        break;
+        VP_WITNESS(total == kmax && (!isn || brest > in.n) && in.boff > 0 && in.bused < in.bsize &&
+                   kk == LENP_LE_16BIT, "C13.buffer-encode.le16-max.reach");
+        VP_WITNESS(total == kmax && kk == LENP_VARIABLE, "C13.buffer-encode.varint-max.reach");
     }
-    case EP_CHUNKS_USE: {
+#elif EP == EP_CHUNKS_USE
+    {
         LengthPrefixChunks lpc;
-        lpc.payload.chunks = in.nchunks;
-        lpc.payload.active = in.active;
+        lpc.payload.chunks = NCHUNKS;
+        lpc.payload.active = ACTIVE;
         lpc.payload.chunk = ch;
         const int rc = flenp_chunks_use(k, &lpc);
-        bool same = lpc.payload.chunks == in.nchunks && lpc.payload.active == in.active &&
+        bool same = lpc.payload.chunks == NCHUNKS && lpc.payload.active == ACTIVE &&
                     lpc.payload.chunk == ch;
         for (unsigned i = 0; i < NCH; ++i)
             same = same && ch[i].data == REG_BASE(REG_C0 + i) && ch[i].size == in.csize[i] &&
                    ch[i].used == in.cused[i] && ch[i].offset == in.coff[i];
         VP_ASSERT(same, "C13.chunks-use.chunk-list-still-designates-the-payload");
         if (ctotal == 0)
-            break;
+            return;
         if (ctotal > kmax) {
             VP_ASSERT(rc < 0, "C13.chunks-use.refuses-beyond-maximum");
-            VP_WITNESS(ctotal == kmax + 1 && ncexp == 3, "C13.chunks-use.max-plus-1.reach");
-            break;
+            VP_WITNESS(ctotal == kmax + 1 && ncexp == NCHUNKS - ACTIVE && kk == LENP_LE_32BIT,
+                       "C13.chunks-use.le32-max-plus-1.reach");
+            return;
         }
         VP_ASSERT(rc >= 0, "C13.chunks-use.accepts");
         check_prefix_buffer(&lpc.prefix, ctotal);
-        VP_WITNESS(ctotal == kmax && ncexp == 2 && in.nchunks == 3, "C13.chunks-use.max-with-empty-chunk.reach");
-        break;
+#if NCHUNKS - ACTIVE >= 3
+        VP_WITNESS(ctotal == kmax && ncexp + 1 == NCHUNKS - ACTIVE && kk == LENP_VARIABLE,
+                   "C13.chunks-use.varint-max-with-empty-chunk.reach");
+#else
+        VP_WITNESS(ctotal == kmax && ncexp == NCHUNKS - ACTIVE && kk == LENP_BE_32BIT,
+                   "C13.chunks-use.be32-max.reach");
+#endif
     }
-    case EP_MEMORY_TO_SINK: {
+#elif EP == EP_MEMORY_TO_SINK
+    {
         const struct seg e = { REG_MEM, 0, in.n };
         expect_sink(in.n, 1, &e);
         const ssize_t rc = flenp_memory_to_sink(k, &sink, REG_BASE(REG_MEM), in.n);
         check_sink(rc, in.n);
-        VP_WITNESS(rc > 0 && in.n == kmax && kindv == LENP_OCTET, "C13.memory-to-sink.octet-max.reach");
-        VP_WITNESS(rc > 0 && in.n == 1100 && kindv == LENP_VARIABLE, "C13.memory-to-sink.varint-1100.reach");
-        VP_WITNESS(rc > 0 && kindv == LENP_VARIABLE && in.n == kmax - 10, "C13.memory-to-sink.varint-largest.reach");
-        VP_WITNESS(rc < 0 && in.n == kmax + 1, "C13.memory-to-sink.max-plus-1.reach");
-        break;
+        VP_WITNESS(rc > 0 && in.n == kmax && kk == LENP_OCTET, "C13.memory-to-sink.octet-max.reach");
+        VP_WITNESS(rc > 0 && in.n == 1100 && kk == LENP_VARIABLE, "C13.memory-to-sink.varint-1100.reach");
+        VP_WITNESS(rc > 0 && kk == LENP_VARIABLE && in.n == kmax - 10, "C13.memory-to-sink.varint-largest.reach");
+        VP_WITNESS(rc < 0 && in.n == kmax + 1 && kk == LENP_BE_32BIT, "C13.memory-to-sink.be32-max-plus-1.reach");
     }
-    case EP_BUFFER_TO_SINK:
-    case EP_BUFFER_TO_SINK_N: {
+#elif EP == EP_BUFFER_TO_SINK || EP == EP_BUFFER_TO_SINK_N
+    {
         const bool isn = (ep == EP_BUFFER_TO_SINK_N);
-        if (isn)
-            VP_ASSUME(in.n <= brest);
         const uint64_t total = isn ? in.n : brest;
         const struct seg e = { REG_BUF, in.boff, total };
         expect_sink(total, 1, &e);
@@ -395,15 +396,15 @@ void harness(void)
         check_sink(rc, total);
         if (isn && total >= 1 && total <= kmax && total <= (uint64_t)SSIZE_MAX - C13_PREFIX_MAX)
             VP_ASSERT(b.offset == in.boff + in.n, "C13.buffer-to-sink-n.advances-by-n");
-        VP_WITNESS(isn && rc > 0 && total == kmax && brest > in.n && in.boff > 0 &&
-                   in.bused < in.bsize, "C13.buffer-to-sink-n.max.reach");
-        VP_WITNESS(!isn && rc > 0 && total == kmax && in.boff > 0 && in.bused < in.bsize,
-                   "C13.buffer-to-sink.max.reach");
-        VP_WITNESS(rc < 0 && total == kmax + 1, "C13.buffer-to-sink.max-plus-1.reach");
-        break;
+        VP_WITNESS(rc > 0 && total == kmax && (!isn || brest > in.n) && in.boff > 0 &&
+                   in.bused < in.bsize && kk == LENP_BE_16BIT, "C13.buffer-to-sink.be16-max.reach");
+        VP_WITNESS(rc > 0 && total == 1100 && in.boff > 0 && kk == LENP_VARIABLE,
+                   "C13.buffer-to-sink.varint-1100.reach");
+        VP_WITNESS(rc < 0 && total == kmax + 1 && kk == LENP_OCTET, "C13.buffer-to-sink.octet-max-plus-1.reach");
     }
-    case EP_CHUNKS_TO_SINK: {
-        ByteChunks oc = { .chunks = in.nchunks, .active = in.active, .chunk = ch };
+#elif EP == EP_CHUNKS_TO_SINK
+    {
+        ByteChunks oc = { .chunks = NCHUNKS, .active = ACTIVE, .chunk = ch };
         expect_sink(ctotal, ncexp, cexp);
         const ssize_t rc = flenp_chunks_to_sink(k, &sink, &oc);
         bool same = true;
@@ -412,21 +413,25 @@ void harness(void)
                    ch[i].used == in.cused[i];
         VP_ASSERT(same, "C13.chunks-to-sink.chunk-buffers-frame");
         check_sink(rc, ctotal);
-        VP_WITNESS(rc > 0 && ctotal == kmax && ncexp == 3, "C13.chunks-to-sink.max-three-chunks.reach");
-        VP_WITNESS(rc > 0 && ctotal >= 1 && ncexp == 2 && in.nchunks == 3 && in.active == 0 &&
-                   in.cused[1] == in.coff[1], "C13.chunks-to-sink.empty-middle-chunk.reach");
-        VP_WITNESS(rc < 0 && ctotal == kmax + 1, "C13.chunks-to-sink.max-plus-1.reach");
-        break;
+        VP_WITNESS(rc > 0 && ctotal == kmax && ncexp == NCHUNKS - ACTIVE && kk == LENP_LE_16BIT,
+                   "C13.chunks-to-sink.le16-max-all-chunks.reach");
+#if NCHUNKS - ACTIVE >= 2
+        VP_WITNESS(rc > 0 && ctotal >= 1 && ncexp + 1 == NCHUNKS - ACTIVE &&
+                   in.cused[NCHUNKS - 1] > in.coff[NCHUNKS - 1] && kk == LENP_VARIABLE,
+                   "C13.chunks-to-sink.varint-empty-chunk-before-last.reach");
+#else
+        VP_WITNESS(rc > 0 && ctotal == 1100 && kk == LENP_VARIABLE, "C13.chunks-to-sink.varint-1100.reach");
+#endif
+        VP_WITNESS(rc < 0 && ctotal == kmax + 1 && kk == LENP_OCTET, "C13.chunks-to-sink.octet-max-plus-1.reach");
     }
-    case EP_MEMORY_FROM_SOURCE:
-    case EP_BUFFER_FROM_SOURCE: {
+#elif EP == EP_MEMORY_FROM_SOURCE || EP == EP_BUFFER_FROM_SOURCE
+    {
         const bool isb = (ep == EP_BUFFER_FROM_SOURCE);
         const uint64_t L = in.n;
-        VP_ASSUME(L >= 1 && L <= kmax);
-        VP_ASSUME(in.cap <= (uint64_t)SSIZE_MAX);
-        if (isb)
-            VP_ASSUME(in.bused <= VOFF && in.bsize <= (uint64_t)SSIZE_MAX);
-        vs.plen = c13_ref_prefix(kindv, L, vs.pre);
+        if (L < 1 || L > kmax)
+            return; /* the stream carries a frame this kind can express */
+        memset(&vs, 0, sizeof vs);
+        vs.plen = c13_ref_prefix(kk, L, vs.pre);
         vs.L = L;
         vs.dst_reg = isb ? REG_BUF : REG_DST;
         vs.dst_start = isb ? in.bused : 0;
@@ -447,21 +452,44 @@ void harness(void)
                 VP_ASSERT(b.used == in.bused + L, "C13.buffer-from-source.appends-to-filled-region");
                 VP_ASSERT(b.offset == in.boff, "C13.buffer-from-source.unread-position-kept");
             }
-            VP_WITNESS(!isb && L == in.cap && L == kmax && kindv == LENP_BE_32BIT,
-                       "C13.memory-from-source.exact-fit-be32-max.reach");
-            VP_WITNESS(!isb && L == 1100 && kindv == LENP_VARIABLE, "C13.memory-from-source.varint-1100.reach");
-            VP_WITNESS(isb && L == room && in.boff > 0 && in.boff < in.bused && kindv == LENP_LE_16BIT,
-                       "C13.buffer-from-source.exact-fit.reach");
+            VP_WITNESS(L == room && L == kmax && (!isb || (in.boff > 0 && in.boff < in.bused)) &&
+                       kk == LENP_BE_32BIT, "C13.decode.exact-fit-be32-max.reach");
+            VP_WITNESS(L == 1100 && kk == LENP_VARIABLE, "C13.decode.varint-1100.reach");
+            VP_WITNESS(L == kmax && kk == LENP_VARIABLE, "C13.decode.varint-max.reach");
         } else {
             VP_ASSERT(rc == -ENOMEM, "C13.decode.reports-out-of-memory");
-            VP_WITNESS(!isb && L == in.cap + 1, "C13.memory-from-source.one-short.reach");
-            VP_WITNESS(isb && L == room + 1 && in.boff < in.bused && kindv == LENP_VARIABLE,
-                       "C13.buffer-from-source.one-short.reach");
+            VP_WITNESS(L == room + 1 && (!isb || in.boff < in.bused) && kk == LENP_LE_16BIT,
+                       "C13.decode.one-short.reach");
         }
-        break;
     }
-    default:
-        break;
+#else
+#error "unknown EP"
+#endif
     }
+}
+
+void harness(void)
+{
+    VP_INPUT(in);
+    /* ByteBuffer representation invariant; offsets that enter pointer
+     * arithmetic on a virtual object stay below VOFF */
+    VP_ASSUME(in.boff <= in.bused && in.bused <= in.bsize && in.boff <= VOFF);
+    for (unsigned i = 0; i < NCH; ++i) {
+        VP_ASSUME(in.coff[i] <= in.cused[i] && in.cused[i] <= in.csize[i] && in.coff[i] <= VOFF);
+        VP_ASSUME(in.cused[i] - in.coff[i] <= ((uint64_t)1 << 62)); /* the sum cannot wrap */
+        if (i < ACTIVE)
+            VP_ASSUME(in.cused[i] == in.coff[i]); /* chunks before `active` are consumed */
+    }
+    if (EP == EP_BUFFER_ENCODE_N || EP == EP_BUFFER_TO_SINK_N)
+        VP_ASSUME(in.n <= in.bused - in.boff); /* "its first n unread octets" */
+    if (EP == EP_MEMORY_FROM_SOURCE || EP == EP_BUFFER_FROM_SOURCE)
+        VP_ASSUME(in.cap <= (uint64_t)SSIZE_MAX && in.bsize <= (uint64_t)SSIZE_MAX && in.bused <= VOFF);
+
+#ifdef KIND
+    run_kind(KIND, &in); /* compile-time kind (probing only) */
+#else
+    VP_ASSUME(in.kind < C13_NKINDS);
+    run_kind(in.kind, &in);
+#endif
 }
 VP_MAIN_EPILOGUE()
